@@ -88,5 +88,10 @@ Proof. vm_compute. repeat split; reflexivity. Qed.
    only a ran, b (required, needs Authn) was advertised and is eligible now *)
 Example ex_w3 :
   r_class w3_run = ROk /\ r_bits w3_run = 6%N /\ negs (trace w3_run) = [((xa, str "a"), 0%N)] /\
-  q_advreq (mon_of cfg_w3 0 w3_run) = [fb_authn] /\ q_cache (mon_of cfg_w3 0 w3_run) = [(false, mkF xa (str "a") 0 0 true KAbstract false false)].
+  q_advall (mon_of cfg_w3 0 w3_run) = [(false, mkF xa (str "a") 0 0 true KAbstract false false); (true, fb_authn)] /\ q_cache (mon_of cfg_w3 0 w3_run) = [(false, mkF xa (str "a") 0 0 true KAbstract false false)].
 Proof. vm_compute. repeat split; reflexivity. Qed.
+
+(* the witness of C01_voluntary_first_literal_refuted: a, then the required c
+   in state Authn, while the voluntary b (needs Authn) was advertised and never ran *)
+Example ex_w4 : negs (trace w4_run) = [((xa, str "a"), 0%N); ((xc, str "c"), 2%N)].
+Proof. vm_compute. reflexivity. Qed.
